@@ -1,4 +1,4 @@
-#!/bin/sh
+#!/bin/bash
 # ./allseeds.sh [pattern] [-j N]: runs every seeded change matching the glob pattern (default *) against the checks of the
 # property it breaks (meta.json "property"), N at a time (default 3), each on a scratch copy of /repo (seedrun.sh), and
 # prints one RESULTS line per seed: VIOL=[..] UNDEC=[..] :: failed obligations.  /repo itself is never touched.
